@@ -12,9 +12,10 @@ CONSTANTS
  Chunks = {1}
  LyingSizes = FALSE
  InlineData = FALSE
- Conc = 64
+ Conc = 3
  Probes = FALSE
  Exts = {TRUE, FALSE}
+ KeepSlots = FALSE
 INIT Init
 NEXT Next
 VIEW View
